@@ -254,4 +254,27 @@ Section LexPos.
     intros Em. pose proof (canonical_zero m Htab t) as Z.
     apply Build_PosOK; [reflexivity|exact Em|exact Z|exact Z|exact Z|exact I].
   Qed.
+
+  (** the remaining observers read canonical positions too *)
+  Theorem peek_parse_span_pos lx sp : PosOK lx -> c_peek_parse_span lx = Some sp -> Canonical (sstart sp) /\ Canonical (send sp).
+  Proof.
+    intros H E. unfold c_peek_parse_span in E. pose proof (po_buf _ H) as Hb.
+    destruct (c_buf lx) as [b|]; [|discriminate E]. destruct Hb as [A B]. injection E as <-.
+    destruct (pos_eqb (pk_start b) (c_cur lx)); unfold enclosing;
+      match goal with |- context [if ?c then _ else _] => destruct c end; cbn [sstart send]; split;
+      first [exact B|apply H].
+  Qed.
+
+  Theorem peek_cursor_pos_pos lx p : PosOK lx -> c_peek_cursor_pos lx = Some p -> Canonical p.
+  Proof.
+    intros H E. unfold c_peek_cursor_pos in E. pose proof (po_buf _ H) as Hb.
+    destruct (c_buf lx) as [b|]; [|discriminate E]. injection E as <-. exact (proj2 Hb).
+  Qed.
+
+  Theorem c_is_empty_with_filter_pos lx b lx' : PosOK lx -> c_is_empty_with_filter lx = Ok (b, lx') -> PosOK lx'.
+  Proof.
+    intros H E. unfold c_is_empty_with_filter in E. destruct (c_buffer_next lx) as [l| |] eqn:Eb; cbn [bind] in E; try discriminate E.
+    injection E as _ <-. exact (c_buffer_next_pos lx l H Eb).
+  Qed.
+
 End LexPos.
